@@ -26,10 +26,11 @@ RULES = {
     "R5": "a supplied mapping is used and handed back verbatim by both encoders (shared with C01.R5)",
     "R6": "Screen.__init__ passes the supplied treatment / sample mapping to the encoders as existing_mapping; the mapping properties return what the encoders handed back",
     "R7": "the saved training and test screens are the two results of one hold-out split, saved as returned: nothing re-encodes (smooths, regenerates, combines) one half after the split",
+    "R10": "archive kinds are not mixed: in every command a path is read by one kind of loader (Screen.load_h5 or ExperimentSpace.load_h5), never both - the layouts share dataset names",
     "R9": "archives between the stages are lossless for the id universe: writer / reader key table of Screen and ExperimentSpace agree column by column, no lossy transformation on a mapping column (C02.R1 run here)",
     "R8": "the constructor keeps as its mappings exactly what the encoders returned (no cast of a mapping column on the way into self._X_mapping): a supplied mapping keeps naming the same samples and treatments through every rebuild",
 }
-MIN = {"R9": 10, "R1": 12, "R2": 2, "R3": 5, "R4": 3, "R5": 4, "R6": 3, "R7": 1, "R8": 2}
+MIN = {"R10": 5, "R9": 10, "R1": 12, "R2": 2, "R3": 5, "R4": 3, "R5": 4, "R6": 3, "R7": 1, "R8": 2}
 TRUSTED = ["python ast semantics", "numpy boolean indexing keeps row order", "call graph: typed resolution + name-CHA "
            "fallback (over-approximate); dynamic class lookup via introspection.get_class is assumed to yield "
            "subclasses of the declared base"]
@@ -359,7 +360,36 @@ def r9(ctx):
     ctx.borrow(C02.r1, "R9")
 
 
-RULE_FUNCS = [r1, r2, r3, r4, r5, r6, r7, r8, r9]
+def r10(ctx):
+    """the two archive layouts share dataset names (`treatment_names`, `treatment_doses`, `treatment_ids`, `sample_names`, `sample_ids`): reading an
+    experiment space out of a SCREEN's archive succeeds and yields the per-row columns as if they were the frozen mapping.  In every command,
+    one path expression is read by one kind of loader only; the experiment space of a loaded screen comes from ExperimentSpace.from_screen."""
+    R = ctx.R
+    KINDS = {"Screen.load_h5": "screen", "ExperimentSpace.load_h5": "experiment space"}
+    n = 0
+    for q, f in sorted(R.funcs.items()):
+        if not f.mod.startswith("batchie.cli."):
+            continue
+        env = single_defs(f.node)
+        by_path = {}
+        for c in calls(f.node):
+            k = KINDS.get(U(c.func))
+            if k is None or not (c.args or c.keywords):
+                continue
+            a = c.args[0] if c.args else c.keywords[0].value
+            by_path.setdefault(U(inline(a, env)), set()).add(k)
+        if not by_path:
+            continue
+        n += 1
+        ctx.functions.add(f.qname)
+        mixed = {p_: sorted(k_) for p_, k_ in by_path.items() if len(k_) > 1}
+        ctx.check("R10", f"{f.site()}::one-archive-kind-per-path", not mixed, f"{len(by_path)} archive path(s), each read by one kind of loader",
+                  f"the same archive is read both as a screen and as an experiment space ({mixed}): the layouts share dataset names, so the rows' "
+                  f"columns are taken for the frozen id mapping and the model is sized by the row count")
+    ctx.need(n >= 5, f"cli: only {n} command(s) that load a screen / experiment space were found")
+
+
+RULE_FUNCS = [r1, r2, r3, r4, r5, r6, r7, r8, r9, r10]
 
 
 def _drop_kw(fn_name, kw):
@@ -380,6 +410,8 @@ def _rep(a, b):
 
 
 WITNESSES = [
+    ("training command reads the experiment space out of the screen's archive", "batchie.cli.train_model",
+     _rep("    experiment_space = ExperimentSpace.from_screen(data)", "    experiment_space = ExperimentSpace.load_h5(args.data)"), ["R10"]),
     ("archive stores the sample-mapping names in the rows' fixed-width dtype", "batchie.data",
      _rep("                data=np.char.encode(self.sample_mapping[0].astype(str)),\n                compression=\"gzip\",", "                data=np.char.encode(self.sample_mapping[0].astype(self.sample_names.dtype)),\n                compression=\"gzip\","), ["R9"]),
     ("stored sample mapping cast to the rows' dtype", "batchie.data",
